@@ -52,8 +52,11 @@ def check(reg, tier):
     pykernel.kernel_Fq_Iq(reg, PROP)
     # the amplitude kernels themselves (F, F^2 interleaved, shell-volume slot): C01 contract
     kernel_c.kernel_contracts(reg, PROP, tier, [("sphere", "Iq"), ("vesicle", "Iq"), ("hollow_cylinder", "Iq")])
-    reg.assume("weighted Cauchy-Schwarz (sum c f)^2 <= (sum c)(sum c f^2) for c >= 0: Lean lemma wcs "
-               "(lemmas/Sas.lean), instantiated at the model's nodes and at the dispersity mesh")
+    from contracts import leanlib
+    leanlib.lean_lemmas(reg, PROP, ["weighted_cauchy_schwarz"])
+    reg.assume("weighted Cauchy-Schwarz (sum c f)^2 <= (sum c)(sum c f^2) for c >= 0 is the Lean lemma "
+               "Sas.weighted_cauchy_schwarz (lemmas/Sas.lean, checked on every run); its instantiation at the model's "
+               "nodes and at the dispersity mesh is a paper step")
     reg.assume("quadrature weights and Jacobian factors are non-negative on the node range (tables checked "
                "numerically); SUM c measured as lim q->0 F1^2/F2 on the compiled model")
     reg.assume("equality as q -> 0 and positivity/finiteness of radii and volumes are checked only by the "
